@@ -814,6 +814,11 @@ class Interp:
                 return [(i + start, x) for i, x in enumerate(self.iterate(args[0]))]
             if name == "reversed" and len(args) == 1:
                 return list(reversed(self.iterate(args[0])))
+            if name == "sorted" and len(args) == 1 and set(kwargs) <= {"reverse"}:
+                vals_ = self.iterate(args[0])
+                if all(isinstance(x, (int, float)) and not isinstance(x, bool) for x in vals_) and isinstance(kwargs.get("reverse", False), bool):
+                    return sorted(vals_, reverse=kwargs.get("reverse", False))
+                raise Undecided("sorted over non-numbers")
             if name == "range" and all(isinstance(a, int) for a in args):
                 return list(range(*args))
             if name == "map" and len(args) >= 2:
